@@ -259,6 +259,9 @@ def main():
         m = reftext.meaning(G1, IG, it + b' i = 7')
         assert m.verdict == ACCEPT and m.res.unknown_items >= 1, it
     d1, d2 = gen(1), gen(2)
+    # unknown names written as paths through declared sections to an undeclared leaf: unknown like any other
+    for nm in (b's|zz', b'"s|t|zz"', b'"m=0|zz"'):
+        d1 += atoms(nm) + [nm + b' { }', nm + b' t { a = 1 }', nm + b' { i = x u { } }']
     shards = [(b, list(ch), dl) for b in BASES for ch in engine.chunks(d1, 40)]
     engine.phase(ck, 'single unknown item of nesting <= 1 at every boundary', shard_single, shards, items=len(d1), bases=len(BASES))
     ns = list(range(1, 11)) + [100, 1000, 10000]
